@@ -108,24 +108,24 @@ int libwifi_parse_radiotap_info(struct libwifi_radiotap_info *info, const unsign
                 info->extended_flags = *it.this_arg;
                 break;
             case IEEE80211_RADIOTAP_RX_FLAGS:
-                info->rx_flags = *it.this_arg;
+                info->rx_flags = le16toh(*(uint16_t *) it.this_arg);
                 break;
             case IEEE80211_RADIOTAP_TX_FLAGS:
-                info->tx_flags = *it.this_arg;
+                info->tx_flags = le16toh(*(uint16_t *) it.this_arg);
                 break;
             case IEEE80211_RADIOTAP_MCS:
                 info->mcs.known = *(uint8_t *) it.this_arg;
-                info->mcs.flags = *(uint8_t *) (it.this_arg + 2);
-                info->mcs.mcs = *(uint8_t *) (it.this_arg + 3);
+                info->mcs.flags = *(uint8_t *) (it.this_arg + 1);
+                info->mcs.mcs = *(uint8_t *) (it.this_arg + 2);
                 break;
             case IEEE80211_RADIOTAP_DBM_TX_POWER:
                 info->tx_power = *it.this_arg;
                 break;
             case IEEE80211_RADIOTAP_TIMESTAMP:
                 info->timestamp.timestamp = le64toh(*(uint64_t *) it.this_arg);
-                info->timestamp.accuracy = le16toh(*(uint16_t *) (it.this_arg + 2));
-                info->timestamp.unit = *(uint8_t *) (it.this_arg + 3);
-                info->timestamp.flags = *(uint8_t *) (it.this_arg + 4);
+                info->timestamp.accuracy = le16toh(*(uint16_t *) (it.this_arg + 8));
+                info->timestamp.unit = *(uint8_t *) (it.this_arg + 10);
+                info->timestamp.flags = *(uint8_t *) (it.this_arg + 11);
                 break;
             case IEEE80211_RADIOTAP_RTS_RETRIES:
                 info->rts_retries = *it.this_arg;
